@@ -37,20 +37,51 @@ class IslandModel:
         if self.lab is None:
             raise AnalysisError("find_islands: `labels, n = label(...)` "
                                 "unpacking not recognised")
-        # per-island loop
-        self.loop = None
+        # name holding the find_objects result
+        self.boxes = None
         for s in walk_no_nested(f):
-            if isinstance(s, ast.For) and isinstance(s.iter, ast.Call) and \
-                    norm(s.iter.func) == "range" and \
-                    self.nlab in names_in(s.iter):
-                self.loop = s
+            if isinstance(s, ast.Assign) and s.value is self.find_call and \
+                    isinstance(s.targets[0], ast.Name):
+                self.boxes = s.targets[0].id
+        # per-island loop: range(n)  or  enumerate(boxes)
+        self.loop = None
+        self.ivar = None
+        for s in walk_no_nested(f):
+            if not (isinstance(s, ast.For) and isinstance(s.iter, ast.Call)):
+                continue
+            fn = norm(s.iter.func)
+            if fn == "range" and self.nlab in names_in(s.iter):
+                self.loop, self.ivar = s, norm(s.target)
+            elif fn == "enumerate" and self.boxes and s.iter.args and \
+                    norm(s.iter.args[0]) == self.boxes and \
+                    isinstance(s.target, ast.Tuple) and \
+                    not s.iter.keywords and len(s.iter.args) == 1:
+                self.loop, self.ivar = s, norm(s.target.elts[0])
         if self.loop is None:
             raise AnalysisError("find_islands: per-island loop over "
-                                "range(n) not found")
-        self.ivar = norm(self.loop.target)
+                                "range(n) / enumerate(boxes) not found")
+        # names that are views of the label image (labels[...] cut-outs)
+        self.lab_names = self._views(self.lab)
         # the labelled mask variable and snr
         self.mask_name = norm(self.label_call.args[0]) \
             if self.label_call.args else None
+
+    def _views(self, base):
+        """base plus every local name assigned a subscript of such a name"""
+        out = {base}
+        changed = True
+        while changed:
+            changed = False
+            for s in ast.walk(self.fi.node):
+                if isinstance(s, ast.Assign) and len(s.targets) == 1 and \
+                        isinstance(s.targets[0], ast.Name) and \
+                        isinstance(s.value, ast.Subscript) and \
+                        isinstance(s.value.value, ast.Name) and \
+                        s.value.value.id in out and \
+                        s.targets[0].id not in out:
+                    out.add(s.targets[0].id)
+                    changed = True
+        return out
 
     # ---- own-pixel restriction -------------------------------------------
     def label_compare(self, e):
@@ -60,7 +91,7 @@ class IslandModel:
                     isinstance(c.ops[0], (ast.Eq, ast.NotEq)):
                 sides = [c.left, c.comparators[0]]
                 txt = [norm(x) for x in sides]
-                has_lab = any(self.lab in names_in(x) for x in sides)
+                has_lab = any(self.lab_names & names_in(x) for x in sides)
                 has_id = any(t.replace(" ", "") in (self.ivar + "+1",
                                                     "1+" + self.ivar)
                              for t in txt)
@@ -69,7 +100,7 @@ class IslandModel:
             if isinstance(c, ast.Call):
                 for kw in ("labels", "index"):
                     k = kwarg(c, kw)
-                    if k is not None and (self.lab in names_in(k) or
+                    if k is not None and (self.lab_names & names_in(k) or
                                           self.ivar in names_in(k)):
                         return True
         return False
